@@ -186,9 +186,12 @@ Definition name_of (c : config) (w : world) (o_infix : option bytes) : bytes :=
 
 Definition infix_from_ts (c : config) (w : world) (fmt : tsfmt) (t : Z) : bytes :=
   format_ts fmt (if c_utc c then civil_of t else local_civil w t).
-(* timestamp_from_ts_infix: the infix is read as local time *)
-Definition ts_from_infix (w : world) (fmt : tsfmt) (infix : bytes) : option Z :=
-  match parse_ts_local fmt infix with Some l => Some (l - woff w)%Z | None => None end.
+(* timestamp_from_ts_infix + the conversion in latest_timestamp_file: the infix is read the way it was written *)
+Definition ts_from_infix (c : config) (w : world) (fmt : tsfmt) (infix : bytes) : option Z :=
+  match parse_ts_local fmt infix with
+  | Some l => Some (if c_utc c then l else l - woff w)%Z      (* with use_utc the infix was written as UTC *)
+  | None => None
+  end.
 
 Definition age_rotation_necessary (w : world) (a : age) (created : Z) : bool :=
   negb (same_period a (local_civil w created) (local_civil w (wnow w))).
@@ -421,7 +424,7 @@ Definition latest_timestamp_file (c : config) (w : world) (rotate : bool) (fmt :
       match map_opt (ts_infix_from_name (c_spec c) fixed) files with
       | None => None
       | Some infixes =>
-        Some (match max_z (filter_some (List.map (ts_from_infix w' fmt) infixes)) with
+        Some (match max_z (filter_some (List.map (ts_from_infix c w' fmt) infixes)) with
               | Some t => t
               | None => wnow w' end)
       end
